@@ -4,6 +4,25 @@ summarised by hand below; everything else is what tools/seed_eval.sh measured)""
 import json, glob, os
 
 WHAT = {
+    'C01-agent4': 'stream.feed buffers a data frame only `if frame.payload or frame.fin` (an empty first fragment is forgotten; the continuation is then refused)',
+    'C02-agent4': '_ReadUntil.find resumes the terminator search from a `scanned` index that goes negative for 1-2 buffered bytes (tiny first reads: handshake never recognised)',
+    'C03-agent4': 'send_compressed sends the original bytes with RSV1 clear when deflate did not shrink them - after the shared context absorbed them',
+    'C04-agent4': 'parse skips frame.validate() for first header bytes cached in a class-level set (RSV1 frames accepted on a later connection without the extension)',
+    'C05-agent4': 'Message.build decodes fragmented text with an incremental decoder, skipping empty fragments (truncated sequence + empty FIN frame delivered)',
+    'C06-agent4': 'same edit as C03-agent4, by another agent: deflate context advanced for a message that goes out uncompressed',
+    'C07-agent4': 'run(): the per-cycle _regular() moved into the else of `if readable` (a trickled frame postpones both timeouts for ever: no terminal event)',
+    'C08-agent4': 'close() enters the closing state only if _send_close returned True (fault right after the Close bytes left: later sends are written, second Close)',
+    'C09-agent4': '_connect_sock remembers the last per-address error and gives up after the loop when it is set (an earlier failed address defeats a later successful one)',
+    'C10-agent4': 'Response strips every header fragment separately (a value folded right after the colon keeps a leading space: correct reply Rejected)',
+    'C11-agent4': 'frames of up to 4 KiB are assembled in one reusable per-session buffer, built before write() takes the lock',
+    'C12-agent4': 'close() raises the closing flag before _send_close and write() lets the Close frame through the gate (two overlapping close() calls both write)',
+    'C13-agent4': 'write() sets _sock = None when sendall fails (every later _close_socket() is a no-op: the socket is never closed)',
+    'C14-agent4': 'close() raises the closing flag before the Close frame is written (a Ping handled in between loses its Pong)',
+    'C15-agent4': 'run(): housekeeping only when the wait timed out or after an event (trickled bytes: no Poll, no ping, no timeouts)',
+    'C16-agent4': 'back-off ceiling computed as 2.0 ** retries (OverflowError after 1024 consecutive failures: persist() ends)',
+    'C17-agent4': 'reset() reuses the WebsocketStream and resets it in place; Parser.reset() keeps _buffer (bytes of a connection that ended mid-frame leak into the next)',
+    'C18-agent4': '_send_pong try-locks the write lock and queues the Pong for the next _regular() when it is taken',
+    'C19-agent4': 'proxy read loop moved into proxy.read_response(sock, parser=ProxyParser()) - one parser shared by every connect (a stale 200 is replayed)',
     'C01-agent1': 'Parser.feed hands a slice of the receive buffer to the coroutine when one read satisfies a read(n) ("zero-copy")',
     'C02-agent1': 'same zero-copy slice in Parser.feed (payload of an earlier fragment is overwritten by the next read)',
     'C03-agent1': '_send_close checks len(reason) > 123 on the text instead of the encoded payload (multi-byte reasons overflow)',
